@@ -1412,6 +1412,10 @@ class ForAll(BinaryOperator):
             yield out
 
 
+def not_contains(a, b):
+    return not operator.contains(a, b)
+
+
 @dataclass(eq=False)
 class Comparator(BinaryOperator):
     """
@@ -1438,24 +1442,24 @@ class Comparator(BinaryOperator):
             return
         self._invert__ = value
         prev_operation = self.operation
+        # The flag only ever toggles here, so inverting and un-inverting both map the operation to its inverse.
         match self.operation:
             case operator.lt:
-                self.operation = operator.ge if self._invert_ else self.operation
+                self.operation = operator.ge
             case operator.gt:
-                self.operation = operator.le if self._invert_ else self.operation
+                self.operation = operator.le
             case operator.le:
-                self.operation = operator.gt if self._invert_ else self.operation
+                self.operation = operator.gt
             case operator.ge:
-                self.operation = operator.lt if self._invert_ else self.operation
+                self.operation = operator.lt
             case operator.eq:
-                self.operation = operator.ne if self._invert_ else self.operation
+                self.operation = operator.ne
             case operator.ne:
-                self.operation = operator.eq if self._invert_ else self.operation
+                self.operation = operator.eq
             case operator.contains:
-                def not_contains(a, b):
-                    return not operator.contains(a, b)
-
-                self.operation = not_contains if self._invert_ else self.operation
+                self.operation = not_contains
+            case _ if self.operation is not_contains:
+                self.operation = operator.contains
             case _:
                 raise ValueError(f"Unsupported operation: {self.operation.__name__}")
         self._node_.name = self._node_.name.replace(prev_operation.__name__, self.operation.__name__)
@@ -1777,7 +1781,7 @@ def Not(operand: Any) -> SymbolicExpression:
     elif isinstance(operand, OR):
         operand = AND(Not(operand.left), Not(operand.right))
     else:
-        operand._invert_ = True
+        operand._invert_ = not getattr(operand, '_invert_', False)
     return operand
 
 
